@@ -239,6 +239,9 @@ def U_D_games():
         "0.7a": [(0.7, "W"), (0.3, "L")],
         "0.7b": [(0.4, "W"), (0.6, "M")],
         "0.7c": [(0.1, "W"), (0.6, "W"), (0.3, "L")],
+        "0.5n11": [(0.5 + 2 ** -11, "W"), (0.5 - 2 ** -11, "L")],      # 0.5 + 4.9e-4: distinct from 1/2 by more than the tolerance
+        "0.5n14": [(0.5 + 2 ** -14, "W"), (0.5 - 2 ** -14, "L")],      # 0.5 + 6.1e-5
+        "0.5n17": [(0.5 + 2 ** -17, "W"), (0.5 - 2 ** -17, "L")],      # 0.5 + 7.6e-6
         "0a": [(1, "L")],
         "1a": [(1, "W")],
         "1b": [(0.3, "W"), (0.7, "W")],
